@@ -6,7 +6,8 @@
    the front, big-endian, modulo; fewer bytes left = take what is there, none = the
    fallback) and the draws each emitter of src/generator/emission.rs makes.
 
-   With this, for a configuration WITHOUT mutators, the specification predicts from
+   With this, for a configuration without mutators - or with SAFE mutators at rate 0.0 or
+   1.0 - the specification predicts from
    the input bytes alone: the FRAME coin, the target T, at every body step which of
    the enabled opcodes is chosen (protocol-table order), which integer variant is
    written, and how many input bytes the whole generation consumes.  The trace spec
@@ -34,19 +35,59 @@ IntSeq(P) == SelectSeq(Table(P), LAMBDA op : op \in IntLikeOps)
 TextOps == {B_STRING, B_UNICODE, B_SHORT_BINUNICODE, B_BINUNICODE, B_BINUNICODE8,
             B_BINSTRING, B_SHORT_BINSTRING, B_SHORT_BINBYTES, B_BINBYTES, B_BINBYTES8, B_BYTEARRAY8}
 
+(* ---- safe mutators at rate 0.0 or 1.0 (rate code 0 / 2) ----
+   Generator::mutate_<kind> tries the registered mutators in order.  A mutator that implements
+   the value kind first draws the 8-byte probability (gen_unit_f64); at rate 0.0 it then declines,
+   at rate 1.0 it fires (the character mutator declines on an empty value) and makes its own
+   draws; the first one that fires ends the loop.  vc: 1 int, 3 float, 4 string, 5 bytes, 6 memo
+   index; n = length of the string / byte value.                                              *)
+Implements(m, vc) ==
+    CASE vc = 1 -> m \in {M_bitflip, M_boundary, M_offbyone}
+      [] vc = 3 -> m = M_boundary
+      [] vc \in {4, 5} -> m \in {M_stringlen, M_character}
+      [] vc = 6 -> m \in {M_offbyone, M_memoindex}
+      [] OTHER -> FALSE
+
+(* draws of the mutator itself once it fires; cursor after them *)
+FiredConsume(m, vc, inp, cur, n) ==
+    CASE m = M_bitflip -> Skip(inp, cur, 1)
+      [] m = M_boundary -> Skip(inp, cur, 1)
+      [] m = M_offbyone -> Skip(inp, cur, 1)
+      [] m = M_memoindex -> Skip(inp, cur, 1)
+      [] m = M_character -> Skip(inp, Choose(inp, cur, n)[2], 1)
+      [] m = M_stringlen ->
+           LET k == Choose(inp, cur, 3) IN
+           IF k[1] = 0 THEN (IF n = 0 THEN k[2] ELSE Choose(inp, k[2], n)[2])
+           ELSE IF k[1] = 1 THEN LET e == Draw(inp, k[2], 8) IN Skip(inp, e[2], e[1] + 1)
+           ELSE k[2]
+      [] OTHER -> cur
+
+RECURSIVE MutConsume(_, _, _, _, _, _, _)
+MutConsume(muts, j, vc, rate, inp, cur, n) ==
+    IF j > Len(muts) THEN cur
+    ELSE IF ~Implements(muts[j], vc) THEN MutConsume(muts, j + 1, vc, rate, inp, cur, n)
+    ELSE LET g == Skip(inp, cur, 8) IN          \* the probability draw
+         IF rate = 0 \/ (muts[j] = M_character /\ n = 0) THEN MutConsume(muts, j + 1, vc, rate, inp, g, n)
+         ELSE FiredConsume(muts[j], vc, inp, g, n)
+
 (* cursor after the draws of emit_and_process(claimed) without mutators;
    nk = memo keys, nk1 = memo keys below OneByte *)
-EmitConsume(mc, claimed, inp, cur, nk, nk1) ==
-    CASE claimed \in IntLikeOps -> Skip(inp, Choose(inp, cur, Len(IntSeq(mc.P)))[2], 4)
-      [] claimed \in {B_FLOAT, B_BINFLOAT} -> Skip(inp, cur, 8)
-      [] claimed \in TextOps -> LET l == U8(inp, cur) IN Skip(inp, l[2], l[1] % 32)
+EmitConsume(mc, claimed, inp, cur, nk, nk1, muts, rate) ==
+    CASE claimed \in IntLikeOps ->
+           MutConsume(muts, 1, 1, rate, inp, Skip(inp, Choose(inp, cur, Len(IntSeq(mc.P)))[2], 4), 0)
+      [] claimed \in {B_FLOAT, B_BINFLOAT} -> MutConsume(muts, 1, 3, rate, inp, Skip(inp, cur, 8), 0)
+      [] claimed \in TextOps ->
+           LET l == U8(inp, cur)
+               n == l[1] % 32
+               vc == IF claimed \in {B_STRING, B_UNICODE, B_SHORT_BINUNICODE, B_BINUNICODE, B_BINUNICODE8} THEN 4 ELSE 5
+           IN MutConsume(muts, 1, vc, rate, inp, Skip(inp, l[2], n), n)
       [] claimed \in {B_GLOBAL, B_INST} -> Choose(inp, cur, StdlibEntries)[2]
       [] claimed = B_PERSID -> Skip(inp, cur, 4)
       [] claimed = B_EXT1 -> Skip(inp, cur, 1)
       [] claimed = B_EXT2 -> Skip(inp, cur, 2)
       [] claimed = B_EXT4 -> Skip(inp, cur, 4)
-      [] claimed \in {B_GET, B_LONG_BINGET} -> Choose(inp, cur, nk)[2]
-      [] claimed = B_BINGET -> Choose(inp, cur, nk1)[2]
+      [] claimed \in {B_GET, B_LONG_BINGET} -> MutConsume(muts, 1, 6, rate, inp, Choose(inp, cur, nk)[2], 0)
+      [] claimed = B_BINGET -> MutConsume(muts, 1, 6, rate, inp, Choose(inp, cur, nk1)[2], 0)
       [] OTHER -> cur
 
 (* the integer variant emit_int writes *)
